@@ -3,8 +3,10 @@ package rules
 import (
 	"fmt"
 	"go/ast"
+	"go/constant"
 	"go/token"
 	"go/types"
+	"regexp"
 	"sort"
 	"strings"
 
@@ -663,6 +665,100 @@ func runC04(c *core.Ctx) core.Meta {
 			c.ReportAt("R04.5", fn, in.Pos(), "ByteSize:other-write", "ByteSize is written as "+short(pv)+": only the format's base size and +4 steps (literal / SDWA word) are valid sizes")
 		}
 	})
+
+	// R04.5 (continued): an instruction has one literal dword; two operands that both name it extend the size once
+	{
+		litConst := int64(-1)
+		if o := pi.Pkg.Pkg.Scope().Lookup("LiteralConstant"); o != nil {
+			if k, ok := o.(*types.Const); ok {
+				litConst, _ = constant.Int64Val(k.Val())
+			}
+		}
+		litOperand := func(x, y ssa.Value) string { // "Src0" for `inst.Src0.OperandType <op> LiteralConstant`
+			k, isC := core.ConstInt(y)
+			if !isC || k != litConst {
+				return ""
+			}
+			m := regexp.MustCompile(`\.(\w+)\.OperandType$`).FindStringSubmatch(prov.Of(x))
+			if m == nil {
+				return ""
+			}
+			return m[1]
+		}
+		for _, fn := range pi.Funcs {
+			type inc struct {
+				n  *core.Node
+				op string
+			}
+			var incs []inc
+			var g *core.Graph
+			for _, b := range fn.Blocks {
+				for _, in := range b.Instrs {
+					st, ok := storeToField(in, "Inst.ByteSize")
+					if !ok || !strings.HasSuffix(prov.Of(st.Val), ".ByteSize+4)") {
+						continue
+					}
+					if g == nil {
+						g = core.BuildGraph(fn, 0, nil)
+					}
+					// which operand's literal test leads here?
+					for _, n := range g.Nodes {
+						if n.Instr != in {
+							continue
+						}
+						for _, operand := range []string{"Src0", "Src1", "Src2"} {
+							operand := operand
+							if g.Guarded(n, CmpCut(func(_ *core.Node, op token.Token, x, y ssa.Value) int {
+								if litOperand(x, y) != operand {
+									return 0
+								}
+								switch op {
+								case token.EQL:
+									return 1
+								case token.NEQ:
+									return -1
+								}
+								return 0
+							})) {
+								incs = append(incs, inc{n, operand})
+								break
+							}
+						}
+					}
+				}
+			}
+			for i, a := range incs {
+				for j, b := range incs {
+					if i == j || a.op == b.op {
+						continue
+					}
+					after, _ := g.Reach(core.After(a.n, nil), core.WalkOpts{ForwardOnly: true})
+					if !after[b.n] {
+						continue
+					}
+					st5.Instances++
+					aop := a.op
+					okOnce := g.Guarded(b.n, CmpCut(func(_ *core.Node, op token.Token, x, y ssa.Value) int {
+						if litOperand(x, y) != aop {
+							return 0
+						}
+						switch op {
+						case token.NEQ:
+							return 1
+						case token.EQL:
+							return -1
+						}
+						return 0
+					}))
+					st5.Ob(okOnce)
+					st5.Sample("%s: the literal of %s extends the size only when %s did not already: %v", core.FuncName(fn), b.op, a.op, okOnce)
+					if !okOnce {
+						c.ReportAt("R04.5", fn, b.n.Instr.Pos(), "literal-counted-twice:"+a.op+"+"+b.op, fmt.Sprintf("ByteSize grows by 4 for a literal %s and again for a literal %s: both operands read the same dword buf[4:8], the encoding is 8 bytes long but is reported as 12 and the next instruction is decoded from the wrong offset", a.op, b.op))
+					}
+				}
+			}
+		}
+	}
 
 	// ---------------- R04.6 callers use the error path ----------------
 	st6 := c.Rule("R04.6", "every caller of Disassembler.Decode uses the decoded instruction only on paths on which the returned error was found nil", 3)
